@@ -202,6 +202,10 @@ def run(check):
         styles = ["zz_%s_%d", "Zz%sX%d", "STEP_%s_%d", "camelCase%s%d"]
         m = {s.name: styles[(gi + i) % len(styles)] % (s.name, i) for i, s in enumerate(prog.steps)}
         variants.append(("renamed", renamed(prog, m), m))
+        if gi % 3 == 0:
+            # names that are prefixes of one another (st, st_x, st_x_x, ...)
+            m2 = {s.name: "st" + "_x" * i for i, s in enumerate(prog.steps)}
+            variants.append(("renamed-prefixes", renamed(prog, m2), m2))
         # the same text prepared repeatedly through one step registry (as one engine instance does)
         variants.append(("same-registry", prog, {}))
         for vname, p, mm in variants:
@@ -267,6 +271,10 @@ def run(check):
     PLAIN = ", ".join("p%d: {required: false, type: {type_id: string}}" % q for q in range(6))
     diamonds["bad-default-in-input"] = {"workflow.yaml": "version: v0.2.0\ninput: {root: RootObject, objects: {RootObject: {id: RootObject, properties: {tag: {type: {type_id: string}}, %s, n: {required: false, default: five, type: {type_id: integer}}}}}}\n%s" % (PLAIN, BODY)}
     diamonds["bad-default-in-output-schema"] = {"workflow.yaml": "version: v0.2.0\ninput: {root: RootObject, objects: {RootObject: {id: RootObject, properties: {tag: {type: {type_id: string}}}}}}\n%soutputSchema:\n  success:\n    schema: {root: R, objects: {R: {id: R, properties: {t: {type: {type_id: string}}, %s, n: {required: false, default: five, type: {type_id: integer}}}}}}\n" % (BODY, PLAIN)}
+    # a required stage input left out while optional ones of the same stage are given: refused every time
+    HEAD = "version: v0.2.0\ninput: {root: RootObject, objects: {RootObject: {id: RootObject, properties: {tag: {type: {type_id: string}}}}}}\nsteps:\n"
+    diamonds["bad-missing-input-with-optional-siblings"] = {"workflow.yaml": HEAD + '  a: {plugin: {src: leaf_w, deployment_type: scripted}, input: {tag: !expr "$.input.tag"}}\n  w: {plugin: {src: leaf_w, deployment_type: scripted}, closure_wait_timeout: 5, wait_for: !expr "$.steps.a.outputs.success", stop_if: !expr "$.steps.a.outputs.error"}\noutputs:\n  success: {t: !expr "$.steps.w.outputs.success.tag"}\n'}
+    diamonds["bad-missing-items-with-optional-siblings"] = {"workflow.yaml": HEAD + '  l: {kind: foreach, workflow: a.yaml, parallelism: 2, wait_for: !expr "$.input.tag"}\noutputs:\n  success: {d: !expr "$.steps.l.outputs.success.data"}\n', "a.yaml": wf("Item", [], leaf=True)}
     engine_cases = []
     for name, files in sorted(diamonds.items()):
         for rep in range(check.pick(16, 48)):
